@@ -2,6 +2,6 @@ SPECIFICATION SpecSim
 CONSTANTS
   Day = 4
   Gaps <- GapsSim
-  Horizon = 40
+  Horizon = 160
   GenLen = 30
 INVARIANTS EmitSim
